@@ -42,8 +42,8 @@ RULE = (
 )
 BUDGET = {"quick": 150.0, "thorough": 900.0}
 KMAX = 3
-# depth-3 pipelines: reduced timeline set (rogue timelines are always kept)
-D3_TLS = ("a-E", "ab-C", "abc-never", "C-with-last")
+# depth-3 pipelines: all timelines too (set a tuple of names here to restrict the conforming ones if the budget ever requires it)
+D3_TLS = None
 
 
 def judge(base, R):
@@ -93,6 +93,10 @@ def one(part, base, seed, dev, R):
     part.case(key, nontrivial, outcome=outcome, sample={"case": pg.descriptor(base, seed, **dev), "outer": R.rec.kinds(), "inner": [r.kinds() for r in R.inner if r is not None]} if (nontrivial and dev) else None)
     if R.status != "ok":
         part.count("budget_runs")
+        if len(part.notes) < 3:
+            part.notes.append(f"run exceeded the action budget: {pg.descriptor(base, seed, **dev)}")
+    if R.drain == "budget":
+        part.count("runs_with_endless_activity_after_horizon")
     if dev and not R.env.injected:
         part.count("fault_not_reached")
     for p in problems[:1]:
@@ -102,7 +106,7 @@ def one(part, base, seed, dev, R):
 
 def shard(part: core.Part, shard_i, nshards, tier, seed, deadline, phase):
     clock = pg.Clock(deadline)
-    gen = pg.base_cases(phase, kinds=("cold", "hot", "rogue"), tl_names_by_depth={3: D3_TLS})
+    gen = pg.base_cases(phase, kinds=("cold", "hot", "rogue"), tl_names_by_depth={3: D3_TLS} if D3_TLS else None)
     for base in core.shard_iter(gen, shard_i, nshards):
         R0 = pg.run(base, seed)
         one(part, base, seed, {}, R0)
@@ -118,7 +122,7 @@ def run(ctx: core.Ctx):
     phases = pg.QUICK if ctx.tier == "quick" else pg.THOROUGH
     use, skipped = pg.entries()
     ctx.bounds = {"phases": list(phases), "catalogue_entries": len(use), "core_entries": sum(1 for e in use if "core" in e.flags),
-                  "sources": ["cold", "hot", "rogue"], "timelines": "catalogue.TLS: 11 conforming (cold, hot) + 3 non-conforming (rogue); depth-3 pipelines: " + ",".join(D3_TLS) + " + 3 rogue",
+                  "sources": ["cold", "hot", "rogue"], "timelines": "catalogue.TLS: 11 conforming (cold, hot) + 3 non-conforming (rogue), at every depth",
                   "inner_policies": list(pg.POLICIES), "fault_k_max": KMAX, "skipped_entries": skipped}
     ctx.assumptions = ["VirtualTimeScheduler queue discipline (checked separately by C28/C29)", "at most one fault per run",
                        "every subscriber subscribes through Observable.subscribe (as the library's public API requires)"]
